@@ -9,9 +9,9 @@ PROPS_FILES = ["LccModel/Props/C03.lean", "LccModel/Props/C03Run.lean"]
 NAMESPACES = {"LccModel/Props/C03.lean": "LccModel.C03", "LccModel/Props/C03Run.lean": "LccModel.C03Run"}
 DRIVER = "drivers/Run.lean"
 TRUSTED_BASE = RUN_TRUSTED + ["fixture scheduling per scope: C14's Model/Fixture.lean theorems scheduled_only_needed / scheduled_deps_before (tied by C14.validate)"]
-ASSUMPTIONS = RUN_ASSUMPTIONS + ["the keyboard-interrupt path is excluded from C03's claim (finding D11 is registered under C08)"]
-RULE = 'generated project (harness/run/gen.py) × nb_threads 1..8 × gate strategy (off/fifo/lifo/random) forcing completion orders; non-trivial = ≥ 2 tests, ≥ 1 body entered, ≥ 8 events; distinct = hash of the case (project + schedule parameters); C03 additionally needs ≥ 1 fixture with a dependency edge or two scopes'
-EXPLANATION = "Teardown tasks start after the setup task and all consumers (Lean theorems for every valid project and interleaving, via the scheduler's ordering invariant and the exact dependency lists of buildTasks); the per-task setup/teardown loops are executed by the run model that every real run is replayed on; the oracle checks the partial order of setup/use/teardown records with value identities."
+ASSUMPTIONS = RUN_ASSUMPTIONS + []
+RULE = 'generated project (harness/run/gen.py) × nb_threads 1..8 × gate strategy (off/fifo/lifo/random) forcing completion orders × keyboard interrupt (30 %: at a quiescent point or at the k-th get); non-trivial = ≥ 2 tests, ≥ 1 body entered, ≥ 8 events; distinct = hash of the case (project + schedule parameters); C03 additionally needs ≥ 1 fixture with a dependency edge or two scopes'
+EXPLANATION = "Teardown tasks start after the setup task and all consumers (Lean theorems for every valid project and interleaving, a keyboard interrupt at any moment included, via the scheduler's ordering invariant and the exact dependency lists of buildTasks); the per-task setup/teardown loops are executed by the run model that every real run is replayed on; the oracle checks the partial order of setup/use/teardown records with value identities."
 
 
 def witness(title_prefix):
@@ -30,7 +30,8 @@ class Run(PropRunStream):
     oracles = ("C03",)
     quick_cases = 330
     quick_seconds = 50
-    corpus = [witness("D19 "), witness("N3 "), witness("D17 ")]
+    p_interrupt = 0.3           # interrupted runs are ordinary cases since fix D11 (teardown order holds under interrupt)
+    corpus = [witness("D11 "), witness("D19 "), witness("N3 "), witness("D17 ")]
 
 
 class RunPT(PropRunStream):
@@ -41,6 +42,7 @@ class RunPT(PropRunStream):
     quick_cases = 180
     quick_seconds = 35
     thorough_cases = 4000
+    p_interrupt = 0.2
     corpus = [witness("D3' ")]
 
 
